@@ -1,6 +1,7 @@
 import BinlogVerif.Lemmas.ImageSession
 import BinlogVerif.Lemmas.ImageInert
 import BinlogVerif.Lemmas.ImageJunk
+import BinlogVerif.Lemmas.ImageSessions
 /-
   C08 — Crash recovery.
 
@@ -48,12 +49,16 @@ import BinlogVerif.Lemmas.ImageJunk
    H4 theorems 2 (explicit form) and 4 are for one session id (`std::sort` on buffers of one session
       is a stable partition by type; with > 16 buffers `std::sort` is not stable — the model's
       `mergeSort` is, see Recovery.lean).
+      Theorems 5 and 6 lift this for the explicit form: with any number of live sessions the output is one
+      segment per session in increasing session order (`c08_sessions_sorted`), and — the event source ids
+      of different sessions overlap, each counts from 1 — every segment reads as it reads alone
+      (`c08_two_sessions`, `Image.expectedItems_after`).
    H5 theorem 4: `Represents` — at least one block of each metadata stream carries the magic
       (true in every `MetaState`: `represents_of_states`), every channel that holds entries has its
       queue (with magic) in the image, queues hold `pre ++ entries` with `pre` accepted earlier.
 -/
 namespace BinlogVerif.C08
-open BinlogVerif BinlogVerif.Recovery BinlogVerif.Image BinlogVerif.Sess
+open BinlogVerif BinlogVerif.Recovery BinlogVerif.Image BinlogVerif.Sess BinlogVerif.E2E
 
 /-! ### 1. the scan finds exactly the blocks that carry a magic -/
 
@@ -572,5 +577,219 @@ example : (scan ((flat exJunkE []).length + 1) (flat exJunkE [])).toOption.map (
 /-- … and the output is that of the image without them -/
 example : recover (flat exJunkE []) = .ok (((expected exJunkE).mergeSort bufLe).map (·.buffer)).flatten :=
   (c08_recovered_output_junk exJunkE [] exJunkE_ok).choose_spec.2.2
+
+/-! ### 5. several live sessions in one image -/
+
+/-- what the tool writes for the buffers whose session id satisfies `q` -/
+def sessionSeg (img : List (Bytes × Piece)) (q : Nat → Bool) : Bytes :=
+  ((((expected img).filter (fun b => q b.session)).mergeSort bufLe).map (·.buffer)).flatten
+
+theorem bufLe_lower (k : Nat) (a b : Recovered) (ha : decide (a.session < k) = true) (hb : decide (b.session < k) = false) :
+    bufLe a b = true ∧ bufLe b a = false := by
+  simp only [decide_eq_true_eq, decide_eq_false_iff_not] at ha hb
+  unfold bufLe
+  have h1 : ¬ a.session = b.session := by omega
+  have h2 : ¬ b.session = a.session := by omega
+  simp only [h1, h2, if_false, decide_eq_true_eq, decide_eq_false_iff_not]
+  omega
+
+/-- **C08.5 (any number of sessions).**  For every session id `k` the output is: what the tool
+    writes for the sessions below `k`, then the buffers of session `k` — its metadata buffers in
+    image order, then its data buffers in image order, exactly the segment C08.2 describes for an
+    image of that session alone —, then what it writes for the sessions above `k`.  No buffer of
+    another session lies between the metadata and the data of a session. -/
+theorem c08_sessions_sorted (img : List (Bytes × Piece)) (t : Bytes) (h : ImageOkI img t) (k : Nat) :
+    recover (flat img t) = .ok (sessionSeg img (fun s => decide (s < k)) ++
+      ((((expected img).filter (fun b => b.session == k && isMeta b)).map (·.buffer)).flatten ++
+       (((expected img).filter (fun b => b.session == k && isData b)).map (·.buffer)).flatten) ++
+      sessionSeg img (fun s => decide (k < s))) := by
+  rw [c08_recovered_sorted_inert img t h]
+  congr 1
+  have p1 := mergeSort_partition (fun b => decide (b.session < k)) (bufLe_lower k) (expected img)
+  have p2 := mergeSort_partition (fun b => decide (b.session < k + 1)) (bufLe_lower (k + 1))
+    ((expected img).filter (fun b => !decide (b.session < k)))
+  rw [p1, p2]
+  simp only [List.filter_filter]
+  have e1 : (expected img).filter (fun b => decide (b.session < k + 1) && !decide (b.session < k)) =
+      (expected img).filter (fun b => b.session == k) := by
+    apply List.filter_congr
+    intro b _
+    by_cases hb : b.session = k
+    · simp [hb]
+    · have : (b.session == k) = false := by simpa using hb
+      rw [this]
+      by_cases h2 : b.session < k
+      · simp [h2]
+      · have : ¬ b.session < k + 1 := by omega
+        simp [this]
+  have e2 : (expected img).filter (fun b => (!decide (b.session < k + 1)) && !decide (b.session < k)) =
+      (expected img).filter (fun b => decide (k < b.session)) := by
+    apply List.filter_congr
+    intro b _
+    by_cases h2 : k < b.session
+    · have a1 : ¬ b.session < k + 1 := by omega
+      have a2 : ¬ b.session < k := by omega
+      simp [h2, a1, a2]
+    · by_cases h3 : b.session < k
+      · simp [h2, h3]
+      · have : b.session < k + 1 := by omega
+        simp [h2, this]
+  rw [e1, e2]
+  have hone : ∀ b ∈ (expected img).filter (fun b => b.session == k), b.session = k := fun b hb => by
+    simpa using (List.mem_filter.mp hb).2
+  rw [mergeSort_one_session _ k hone]
+  simp only [sessionSeg, List.map_append, List.flatten_append, List.filter_filter, List.append_assoc]
+  congr 2
+  · congr 2
+    apply List.filter_congr; intro b _; exact Bool.and_comm _ _
+  · congr 1
+    congr 2
+    apply List.filter_congr; intro b _; exact Bool.and_comm _ _
+
+/-- the bytes the tool writes for the blocks of ONE session are the serialisation of that session's
+    recovered log -/
+theorem toImage_sorted_buffers (s : Session) (sess : Nat) (items : List (Bytes × Image.Item)) (hrep : Represents s items) :
+    (((expected (toImage s sess items)).mergeSort bufLe).map (·.buffer)).flatten = writeBytes (recoveredLog s items) := by
+  rw [mergeSort_one_session _ sess (toImage_one_session s sess items), List.map_append, List.flatten_append,
+    meta_buffers, chan_buffers, ← frames_append, toImage_metaPayloads,
+    toImage_chanPayloads s sess items (fun x hx c pre ci hit hmg => (hrep.chanOk x hx c pre ci hit hmg).2.1)]
+  simp [writeBytes, recoveredLog]
+
+/-- **C08.6 (two live sessions).**  The image holds, interleaved in any order and among any inert
+    junk, the blocks of two sessions (`s1` at the lower address): the blocks with a magic number of
+    session `sess_i`, in image order, are those of an image of `s_i` (hypotheses `h1`, `h2`; each
+    `s_i` reachable, each represented as in C08.4).  Then
+     (a) the tool writes the recovered log of `s1` followed by the recovered log of `s2`;
+     (b) both logs are self-contained, and reading the concatenation yields the items of the first
+         log followed by the items the second log yields WHEN READ ALONE: every event of `s2` is
+         interpreted with the event source `s2` registered under its id and with `s2`'s clock sync,
+         although `s1` registered other sources under the same ids;
+     (c) no item is an `invalid source` error;
+     (d) every accepted event of either session is delivered or in the recovered log. -/
+theorem c08_two_sessions (cs1 cs2 : ClockSync) (ops1 ops2 : List Op) (s1 s2 : Session)
+    (hok1 : SyncTrace (init cs1) ops1) (hrun1 : exec (init cs1) ops1 = some s1)
+    (hok2 : SyncTrace (init cs2) ops2) (hrun2 : exec (init cs2) ops2 = some s2)
+    (sess1 sess2 : Nat) (hlt : sess1 < sess2)
+    (items1 items2 : List (Bytes × Image.Item)) (hrep1 : Represents s1 items1) (hrep2 : Represents s2 items2)
+    (img : List (Bytes × Piece)) (t : Bytes) (himg : ImageOkI img t)
+    (h1 : (expected img).filter (fun b => b.session == sess1) = expected (toImage s1 sess1 items1))
+    (h2 : (expected img).filter (fun b => b.session == sess2) = expected (toImage s2 sess2 items2))
+    (hall : ∀ b ∈ expected img, b.session = sess1 ∨ b.session = sess2) :
+    recover (flat img t) = .ok (writeBytes (recoveredLog s1 items1 ++ recoveredLog s2 items2)) ∧
+    SelfContained (recoveredLog s1 items1) ∧ SelfContained (recoveredLog s2 items2) ∧
+    expectedItems [] {} {} (recoveredLog s1 items1 ++ recoveredLog s2 items2) =
+      expectedItems [] {} {} (recoveredLog s1 items1) ++
+      expectedItems [] (wpAfter {} (recoveredLog s1 items1)) {} (recoveredLog s2 items2) ∧
+    (∀ w e, e ∈ ofW w s1.accepted → e ∈ ofW w s1.delivered ∨ e ∈ recoveredLog s1 items1) ∧
+    (∀ w e, e ∈ ofW w s2.accepted → e ∈ ofW w s2.delivered ∨ e ∈ recoveredLog s2 items2) := by
+  have hm1 := metaInv_exec cs1 ops1 s1 hok1.traceOk hrun1
+  have ha1 := accValid_exec cs1 ops1 s1 hok1.traceOk hrun1
+  have hm2 := metaInv_exec cs2 ops2 s2 hok2.traceOk hrun2
+  have ha2 := accValid_exec cs2 ops2 s2 hok2.traceOk hrun2
+  have hc1 := (C02.c02_exactly_once_in_order cs1 ops1 s1 hok1 hrun1).1
+  have hc2 := (C02.c02_exactly_once_in_order cs2 ops2 s2 hok2 hrun2).1
+  have sc1 := recoveredLog_selfContained s1 items1 hm1 ha1 hrep1
+  have sc2 := recoveredLog_selfContained s2 items2 hm2 ha2 hrep2
+  refine ⟨?_, sc1, sc2, expectedItems_after _ _ sc2 [] {} {}, ?_, ?_⟩
+  · rw [c08_recovered_sorted_inert img t himg]
+    congr 1
+    rw [mergeSort_partition (fun b => decide (b.session < sess2)) (bufLe_lower sess2) (expected img)]
+    have e1 : (expected img).filter (fun b => decide (b.session < sess2)) = expected (toImage s1 sess1 items1) := by
+      rw [← h1]
+      apply List.filter_congr
+      intro b hb
+      rcases hall b hb with h | h
+      · have : b.session < sess2 := by omega
+        simp [h, hlt]
+      · have a1 : ¬ b.session < sess2 := by omega
+        have a2 : ¬ b.session = sess1 := by omega
+        simp [a1, a2]
+    have e2 : (expected img).filter (fun b => !decide (b.session < sess2)) = expected (toImage s2 sess2 items2) := by
+      rw [← h2]
+      apply List.filter_congr
+      intro b hb
+      rcases hall b hb with h | h
+      · have a1 : b.session < sess2 := by omega
+        have a2 : ¬ b.session = sess2 := by omega
+        simp [a1, a2]
+      · simp [h]
+    rw [e1, e2, List.map_append, List.flatten_append, toImage_sorted_buffers s1 sess1 items1 hrep1,
+      toImage_sorted_buffers s2 sess2 items2 hrep2]
+    simp [writeBytes, frames_append]
+  · intro w e he
+    exact accepted_delivered_or_recovered s1 items1 hrep1 hc1 w e he
+  · intro w e he
+    exact accepted_delivered_or_recovered s2 items2 hrep2 hc2 w e he
+
+/-! ### non-vacuity (theorems 5, 6): two sessions in one image, the one at the higher address first -/
+
+theorem exItems_okS (sess : Nat) (hs : sess = 77 ∨ sess = 99) (x : Bytes × Piece) (hx : x ∈ toImage exS sess exItems) :
+    FillerOk x.1 ∧ x.2.OkF := by
+  simp only [toImage, exItems, List.map_cons, List.map_nil, List.mem_cons, List.not_mem_nil, or_false] at hx
+  rcases hs with rfl | rfl
+  · exact exItems_ok.1 x (by simpa [toImage, exItems] using hx)
+  · rcases hx with rfl | rfl | rfl
+    · refine ⟨by decide, by decide, by decide, ?_, by decide⟩
+      intro p hp
+      have : exS.sources.map Entry.payload = [sourcePayload { id := 1 }] := by rfl
+      rw [this, List.mem_singleton] at hp
+      subst hp; unfold PayloadOk; decide
+    · refine ⟨by decide, by decide, by decide, ?_, by decide⟩
+      intro p hp
+      have : exS.clockSyncs.map Entry.payload = [clockSyncPayload {}] := by rfl
+      rw [this, List.mem_singleton] at hp
+      subst hp; unfold PayloadOk; decide
+    · refine ⟨by decide, ?_⟩
+      show (if exCi.magicOn = true then (99 < 2 ^ 64 ∧ exCi.cap < 2 ^ 64 ∧ exCi.Ok) else FillerOk (exCi.block 99))
+      rw [if_pos (show exCi.magicOn = true from rfl)]
+      exact ⟨by decide, by decide, exCi_ok⟩
+
+def exImg2 : List (Bytes × Piece) := toImage exS 99 exItems ++ toImage exS 77 exItems
+
+theorem exImg2_ok : ImageOkI exImg2 [7] := by
+  apply imageOkI_of_imageOk
+  apply imageOk_of_okF
+  refine ⟨?_, by decide⟩
+  intro x hx
+  rcases List.mem_append.mp hx with h | h
+  · exact exItems_okS 99 (.inr rfl) x h
+  · exact exItems_okS 77 (.inl rfl) x h
+
+theorem expected_append (a b : List (Bytes × Piece)) : expected (a ++ b) = expected a ++ expected b := by
+  simp [expected, List.filterMap_append]
+
+theorem exImg2_filter (k other : Nat) (hne : other ≠ k) (a b : List (Bytes × Piece))
+    (ha : ∀ x ∈ expected a, x.session = other) (hb : ∀ x ∈ expected b, x.session = k) :
+    (expected (a ++ b)).filter (fun x => x.session == k) = expected b ∧
+    (expected (b ++ a)).filter (fun x => x.session == k) = expected b := by
+  have fa : (expected a).filter (fun x => x.session == k) = [] :=
+    List.filter_eq_nil_iff.mpr (fun x hx => by simp [ha x hx, hne])
+  have fb : (expected b).filter (fun x => x.session == k) = expected b :=
+    List.filter_eq_self.mpr (fun x hx => by simp [hb x hx])
+  constructor <;> rw [expected_append, List.filter_append, fa, fb] <;> simp
+
+/-- C08.6 applies: the tool writes session 77's log, then session 99's (which lies FIRST in memory),
+    and both read as they read alone -/
+example : recover (flat exImg2 [7]) = .ok (writeBytes (recoveredLog exS exItems ++ recoveredLog exS exItems)) ∧
+    expectedItems [] {} {} (recoveredLog exS exItems ++ recoveredLog exS exItems) =
+      expectedItems [] {} {} (recoveredLog exS exItems) ++
+      expectedItems [] (wpAfter {} (recoveredLog exS exItems)) {} (recoveredLog exS exItems) :=
+  let h := c08_two_sessions {} {} exOps exOps exS exS exOps_ok exS_run exOps_ok exS_run 77 99 (by decide)
+    exItems exItems exItems_rep exItems_rep exImg2 [7] exImg2_ok
+    (exImg2_filter 77 99 (by decide) _ _ (toImage_one_session exS 99 exItems) (toImage_one_session exS 77 exItems)).1
+    (exImg2_filter 99 77 (by decide) _ _ (toImage_one_session exS 77 exItems) (toImage_one_session exS 99 exItems)).2
+    (by
+      intro b hb
+      rw [exImg2, expected_append] at hb
+      rcases List.mem_append.mp hb with h | h
+      · exact .inr (toImage_one_session exS 99 exItems b h)
+      · exact .inl (toImage_one_session exS 77 exItems b h))
+  ⟨h.1, h.2.2.2.1⟩
+
+/-- the four recovered events are printed with a source and a clock sync: no error item -/
+example : (expectedItems [] {} {} (recoveredLog exS exItems ++ recoveredLog exS exItems)).length = 4 ∧
+    ∀ it ∈ expectedItems [] {} {} (recoveredLog exS exItems ++ recoveredLog exS exItems), it.isError = false := by
+  decide
+
 
 end BinlogVerif.C08
